@@ -11,7 +11,7 @@ def claim(i, cat, technique, text, note, ref):
 
 claim("C05", "model_checking",
       "bounded exhaustive enumeration of raw-row layouts x wire assignments, real prover/verifier vs independent row model M1",
-      "Every enumerated (layout, assignment) pair - all arithmetic selector tuples over a small coefficient set, every custom-gate family alone / pairwise / all at once, first / middle / last-row-of-full-domain placement, every single-wire perturbation, copy-constraint breaks on every wire-column pair, size mismatches, instances that emit other selectors than the compiled description (none / plain arithmetic / another family) on the same rows - is executed on the real Prover::prove + Verifier::verify and must agree with the independent row model M1 (accept iff satisfied, CircuitUnsatisfied / InvalidCircuitSize otherwise, never a panic, never an unverifiable proof). Vacuity gates require each of the 17 identity components to be the only failing one in at least one case.",
+      "Every enumerated (layout, assignment) pair - all arithmetic selector tuples over a small coefficient set, every custom-gate family alone / pairwise / all at once, first / middle / last-row-of-full-domain placement, every single-wire perturbation, copy-constraint breaks on every wire-column pair, size mismatches, instances that emit other selectors than the compiled description (none / plain arithmetic / another family) on the same rows, base cases again inside worker pools of 3 / 6 (thorough 2, 3, 5, 6, 7, 12) threads, and a copy class of 1200 (thorough also 2400) positions split in two at every position - is executed on the real Prover::prove + Verifier::verify and must agree with the independent row model M1 (accept iff satisfied, CircuitUnsatisfied / InvalidCircuitSize otherwise, never a panic, never an unverifiable proof). Vacuity gates require each of the 17 identity components to be the only failing one in at least one case.",
       "Trusts M1 (DESIGN Appendix A.1) as the statement of the gate identities, dusk-bls12_381/dusk-jubjub field and curve arithmetic, and treats separation-challenge cancellations (~2^-250) as impossible. Field values come from constructed assignments and small perturbations, not the whole field.",
       "DESIGN.md §5 C05")
 
@@ -46,14 +46,14 @@ claim("C20", "model_checking",
       "DESIGN.md §5 C20")
 
 claim("C03", "model_checking",
-      "exhaustive enumeration of (verifier, proof, public inputs) triples - all 8064 single-bit flips, every field replacement, cross-circuit and cross-version presentations - real verifier vs independent reference verifier M2",
+      "exhaustive enumeration of (verifier, proof, public inputs) triples - all 8064 single-bit flips, every field replacement, coordinated +T / -T cofactor-torsion shifts of commitment pairs, public-input edits, adaptive openings, cross-circuit and cross-version presentations - real verifier vs independent reference verifier M2",
       "On every enumerated triple the real Verifier::verify_with_version accepts iff the naive reference verifier M2 accepts (own transcript table, Z_H / L_1 / PI(z) from their definitions, linearisation commitment term by term, two independent pairings), and the two decoders agree on decodability; never a panic. Quick: 3 circuits x V3 (+V1 on one) with all 8064 flips, other (circuit, version) pairs one flip per byte; thorough: 6 circuits x V1/V2/V3, all flips. Vacuity gates: >= 1 accept per (circuit, version), >= 1 decodable-but-rejected flip per field.",
       "Trusts M2 (DESIGN Appendix A.2/A.3) as the statement of the protocol, dusk-bls12_381 pairings/group arithmetic and merlin. V1-accepted proofs are derived from V2 proofs by the harness because the crate cannot produce them.",
       "DESIGN.md §5 C03")
 
 claim("C04", "model_checking",
       "exhaustive cross product of statement edits (public-input values/permutations/resizes, near-miss circuits, label edits, version pairs) on valid proofs, real verifier vs expectation derived from byte-equality of verifier descriptions and M2",
-      "For circuits with 1..4 public-input rows every PI position x alternative value, every permutation, truncation and extension, every mechanically generated near-miss verifier (one selector, one wire, one PI row added/removed/moved, one constraint more/fewer), 69 label edits and every ordered version pair must be rejected with an error unless the verifier description bytes, label, version and PI vector are all identical; never a panic; proving under V1 returns UnsupportedProvingVersion.",
+      "For circuits with 0..4 public-input rows every PI position x alternative value, every permutation, truncation and extension, every mechanically generated near-miss verifier (one selector, one wire, one PI row added/removed/moved, one constraint more/fewer), 69 label edits and every ordered version pair must be rejected with an error unless the verifier description bytes, label, version and PI vector are all identical; never a panic; proving under V1 returns UnsupportedProvingVersion.",
       "Expectation 'same description' = byte equality of Verifier::to_bytes(); version-pair expectations come from M2. One benign literal deviation (relocated zero-valued PI row) is a recorded known finding.",
       "DESIGN.md §5 C04")
 
@@ -64,7 +64,7 @@ claim("C10", "model_checking",
       "DESIGN.md §5 C10")
 
 claim("C17", "fault_enumeration",
-      "structure-aware exhaustive byte-fault enumeration (bit flips, every length field x value set, every truncation point, extensions, field splices, hand-built invalid elements, re-packed MessagePack/deflate payloads, deflate bombs) over every checked decoder, in isolated child processes with a counting allocator and watchdog",
+      "structure-aware exhaustive byte-fault enumeration (bit flips, every length field x value set, every truncation point, extensions, field splices, hand-built invalid elements, pairs of adjacent G1 elements shifted by +T / -T (cofactor torsion), re-packed MessagePack/deflate payloads, deflate bombs) over every checked decoder, in isolated child processes with a counting allocator and watchdog",
       "Every enumerated faulted encoding of provers, verifiers, proofs, public parameters, commit keys (compressed and raw, reached through the public decoders) and compressed circuits is decoded by the real code in a build with debug assertions and overflow checks: it must return Ok or Err - no panic, abort or hang (per-case watchdog in child processes), peak allocation <= 2 x the valid peak + 1 MiB (compressed circuits: bounded by the parameters' capacity); whatever is accepted must re-encode to bytes a strict independent parser accepts (canonical scalars, on-curve prime-order points, flags in {0,1}, non-identity opening keys) and must be usable for proving / verifying / compiling without panicking.",
       "Fault depth 1 (quick) / 2 on integer fields (thorough); bulk data of large provers is strided (coverage per object and operator family is listed in the evidence). Trusts the strict parser and dusk-bls12_381 point validation predicates.",
       "DESIGN.md §5 C17")
@@ -89,13 +89,13 @@ claim("C12", "model_checking",
 
 claim("C13", "model_checking",
       "exhaustive (P, Q) products over subgroup points, all 8 torsion cosets, off-curve pairs and the complete on-curve preimage set of [8], through the real torsion-free gates, decided by M1; direct entry points over extended representations",
-      "For P in {subgroup points} u {S + T : T in E[8] \\ {O}} u {off-curve pairs} and prover-chosen Q in {[8^-1]P + T' for all 8 T'} u {other on-curve points} u {off-curve pairs}: assert_torsion_free_gates(P, Q) (+ bound-1 deviations) is M1-satisfiable iff Q is on-curve and [8]Q = P, hence for some Q iff P is an on-curve subgroup member; append_constant_point / the generator check accept exactly members (generator: non-identity) over normal / scaled-Z / Z=0 / inconsistent-T representations and every entry point rejects Z = 0 with an error, no panic - on a fresh composer and after every history of valid earlier calls (constant identity / G, generator G, combinations), with off-curve neighbours that share a coordinate (or its parity) with a member among the candidates.",
+      "For P in {subgroup points} u {S + T : T in E[8] \\ {O}} u {off-curve pairs} and prover-chosen Q in {[8^-1]P + T' for all 8 T'} u {other on-curve points} u {off-curve pairs}: assert_torsion_free_gates(P, Q) (+ bound-1 deviations) is M1-satisfiable iff Q is on-curve and [8]Q = P, hence for some Q iff P is an on-curve subgroup member; append_constant_point / the generator check accept exactly members (generator: non-identity) over normal / scaled-Z / Z=0 / inconsistent-T representations and every entry point rejects Z = 0 with an error, no panic ; the coordinates append_constant_point / append_public_point allocate cannot be moved (bound-1/2 deviations, also when the point flows into a component) - on a fresh composer and after every history of valid earlier calls (constant identity / G, generator G, combinations), with off-curve neighbours that share a coordinate (or its parity) with a member among the candidates.",
       "Own affine Edwards arithmetic and torsion-point construction (M5); structural classes of P and Q, not all field pairs; inconsistent-T representations of valid points may be accepted or rejected (informational).",
       "DESIGN.md §5 C13")
 
 claim("C14", "model_checking",
       "exhaustive enumeration of prover-chosen signed-digit vectors (single-digit deviations, same-integer rewrites, encodings of s+q, s+-r_J, s+2^253) x scalars x generators through the fixed-base seam plus bound-1 allocation deviations, decided by M1",
-      "component_mul_generator and the signed-digit seam over generators {G, G_nums(, rho G)} and scalar witnesses {0,1,2,r_J-1,r_J,r_J+1,2^252-1,2^252,-1,rho}: satisfiable iff the scalar is canonical (< r_J) and the digit vector (three leading zeros) encodes it as an integer; every satisfying assignment returns [s]G; no digit vector encoding s plus a multiple of either modulus, and no bound-1 deviation of accumulators / xy_alpha / canonicity range checks, yields another point. Non-initial states: the scalar witness range-checked beforehand to 64 / 251 / 252 / 253 / 254 bits or already multiplied by the same / another generator (satisfiable iff canonical AND the history's relation holds, through the public entry point and the seam with honest and binary digits), and after every sequence of up to three earlier multiplications over four generators. Verdicts of principal vectors replayed on the real prover.",
+      "component_mul_generator and the signed-digit seam over generators {G, G_nums, rho G (Z != 1), G rescaled by -1} (the last two through the public entry point only in quick) and scalar witnesses {0,1,2,r_J-1,r_J,r_J+1,2^252-1,2^252,-1,rho}: satisfiable iff the scalar is canonical (< r_J) and the digit vector (three leading zeros) encodes it as an integer; every satisfying assignment returns [s]G; no digit vector encoding s plus a multiple of either modulus, and no bound-1 deviation of accumulators / xy_alpha / canonicity range checks, yields another point. Non-initial states: the scalar witness range-checked beforehand to 64 / 251 / 252 / 253 / 254 bits or already multiplied by the same / another generator (satisfiable iff canonical AND the history's relation holds, through the public entry point and the seam with honest and binary digits), and after every sequence of up to three earlier multiplications over four generators. Verdicts of principal vectors replayed on the real prover.",
       "Own affine Edwards arithmetic (M5) and NAF code; M1 bound to the prover by C05. Quick tier strides digit positions and allocation ordinals (reported).",
       "DESIGN.md §5 C14")
 
@@ -107,25 +107,25 @@ claim("C01", "model_checking",
 
 claim("C15", "model_checking",
       "exhaustive comparison of the compressed and direct compile routes over all E1 program states / named circuits x SRS capacities, plus handcrafted boundary descriptions in a child process with a counting allocator",
-      "For every E1 program state and a named list (unused witnesses, repeated / distinct selector tuples, selectors equal to the built-in table entries, zero-valued PIs, PI on first / last row) all 27 public-input patterns (none / non-zero / zero-valued) over three consecutive uses of one selector tuple, and transcript labels of boundary lengths (0..65536, zero / 0xff bytes) at capacities {min-1, min, min+1, ample}: Prover and Verifier bytes from compile_with_compressed equal those of direct compilation and both routes succeed or fail for exactly the same capacities; handcrafted descriptions (constraints = max / max+1, trailing bytes 1..8, each index at bound / bound-1, non-increasing PIs, witness count 1e12, announced lengths 2^31, 1 GiB deflate bomb) are accepted / rejected as specified with peak allocation <= 2 x the valid peak + 1 MiB.",
+      "For every E1 program state and a named list (unused witnesses, repeated / distinct selector tuples, selectors equal to the built-in table entries, zero-valued PIs, PI on first / last row) a description with 66 000 distinct selector scalars (vector headers beyond 16 bits), all 27 public-input patterns (none / non-zero / zero-valued) over three consecutive uses of one selector tuple, and transcript labels of boundary lengths (0..65536, zero / 0xff bytes) at capacities {min-1, min, min+1, ample}: Prover and Verifier bytes from compile_with_compressed equal those of direct compilation and both routes succeed or fail for exactly the same capacities; handcrafted descriptions (constraints = max / max+1, trailing bytes 1..8, each index at bound / bound-1, non-increasing PIs, witness count 1e12, announced lengths 2^31, 1 GiB deflate bomb) are accepted / rejected as specified with peak allocation <= 2 x the valid peak + 1 MiB.",
       "Own MessagePack encoder validated by byte-identical re-encoding of real descriptions; capacity rule stated independently.",
       "DESIGN.md §5 C15")
 
 claim("C16", "model_checking",
       "exhaustive round-trip enumeration over E1 program states, boundary-size circuits, handcrafted layouts and SRS degrees; proof canonicity over all 8064 single-bit flips and hand-built non-canonical encodings",
-      "For every explored circuit: Prover / Verifier encode -> decode -> encode is byte-identical and serialized_size exact; the decoded prover produces the identical proof from the same RNG script; the decoded verifier returns the same verdict on the honest proof, one flipped bit per proof field and PI edits; every decodable proof string re-encodes to itself (all 8064 flips + non-canonical scalars / points rejected); PublicParameters (checked and raw forms) re-encode identically and compile to identical keys. Includes a layout whose multiplication selector is identically zero (polynomial lengths differ), constraint counts exactly on powers of two, and labels of boundary lengths (0..65536, zero / 0xff bytes) stored in the prover encoding.",
+      "For every explored circuit: Prover / Verifier encode -> decode -> encode is byte-identical and serialized_size exact; the decoded prover produces the identical proof from the same RNG script; the decoded verifier returns the same verdict on the honest proof, one flipped bit per proof field and PI edits; every decodable proof string re-encodes to itself (all 8064 flips + non-canonical scalars / points rejected); PublicParameters (checked and raw forms; degrees 1..33, around 256-point blocks, 1017..1300, thorough up to 5000) re-encode identically and compile to identical keys. Includes a layout whose multiplication selector is identically zero (polynomial lengths differ), constraint counts exactly on powers of two, and labels of boundary lengths (0..65536, zero / 0xff bytes) stored in the prover encoding.",
       "Behavioural equality observed on the listed presentations, not all proofs.",
       "DESIGN.md §5 C16")
 
 claim("C18", "model_checking",
       "deviation-bounded exhaustive exploration of parallel-region task orders / join orders / reduction shapes / thread counts and hash-map iteration orders of the real code under controllable rayon and hashbrown shims, plus an exhaustive preemption-bounded controlled-scheduler exploration (E6) of concurrent calls through the process-wide label cache",
-      "(a) [patch.crates-io] replaces rayon and hashbrown for the whole dependency graph by shims whose task order, join order, reduction shape, reported thread count and map iteration order an explorer chooses: bound 0, thread sweep {1,2,3,4,5,8,16,17,32}, whole-run policies, and bound 1 (every region / site of the 2^5 circuit x every policy; class representatives + stride on 2^9; thorough: full bound 1 on 2^9, bound 2 on 2^5, representatives on 2^10 / 2^12) over compile, prove, verify and compress: Prover / Verifier / proof / PI / compressed bytes must be identical to the canonical schedule; the shim build's reference bytes equal the real build's. (b) fresh processes (OS-random hash seeds, RAYON_NUM_THREADS), (c) real pools of 1..=17 threads on padded AND domain-filling circuits (constraints = 2^k exactly, k = 9..12), (d) alloc-only build (separate workspace without std/rayon) give identical bytes; (e) E6: a controlled scheduler (one runnable thread at a time, scheduling points at operation boundaries and at the label-cache lock region hook) explores every schedule of 2-3 threads x 1-2 prove / verify / compile calls up to 2 (thorough 3) preemptions: every call returns what it returns sequentially; (f) 16 free-running threads on shared keys; (g) the 2^5 proof equals the reference prover M3.",
+      "(a) [patch.crates-io] replaces rayon and hashbrown for the whole dependency graph by shims whose task order, join order, reduction shape, reported thread count and map iteration order an explorer chooses: bound 0, thread sweep {1,2,3,4,5,8,16,17,32}, whole-run policies, and bound 1 (every region / site of the 2^5 circuit x every policy; class representatives + stride on 2^9; thorough: full bound 1 on 2^9, bound 2 on 2^5, representatives on 2^10 / 2^12) over compile, prove, verify and compress: Prover / Verifier / proof / PI / compressed bytes must be identical to the canonical schedule; the shim build's reference bytes equal the real build's. (b) fresh processes (OS-random hash seeds, RAYON_NUM_THREADS), (c) real pools of 1..=17 threads on padded AND domain-filling circuits (constraints = 2^k exactly, k = 9..12) whose selectors include scalars of the compressor's pre-agreed table, (d) alloc-only build (separate workspace without std/rayon) give identical bytes; (e) E6: a controlled scheduler (one runnable thread at a time, scheduling points at operation boundaries and at the label-cache lock region hook) explores every schedule of 2-3 threads x 1-2 prove / verify / compile calls up to 2 (thorough 3) preemptions: every call returns what it returns sequentially; (f) 16 free-running threads on shared keys; (g) the 2^5 proof equals the reference prover M3.",
       "Parallel tasks are atomic for the shim explorer (safe Rust closures, no shared mutable state on these paths - the explorer re-scans the sources for static/Cell/Atomic/Mutex/unsafe and records the set); (b),(c),(f) observe OS schedules and are conformance passes, not the deciding step. Policies are a finite alphabet (identity, reverse, rotate, odd-before-even, last-first, ...), which orders every pair of tasks / entries both ways.",
       "DESIGN.md §5 C18, E5, E5b, E6")
 
 claim("C02", "model_checking",
       "exhaustive enumeration of an adversary strategy menu (forced real prover on every violating bound-1 deviation, reference adversarial prover, copy-constraint breaks, solved-for forged evaluations for all 15 slots, all field-wise splices, degenerate proofs, adaptive z without transcript binding) over 8 base circuits x V1/V2/V3, every adversarial proof presented to the real verifier and cross-checked with the reference verifier M2",
-      "S1: every M1-unsatisfied single-wire deviation (pairs in thorough) of each base circuit through the REAL prover forced past its unsatisfied-circuit check (remainder dropped); S2: the same through the reference prover M3 with drop_remainder; S3: assignments that satisfy every row but break one compiled copy constraint (every wire-column pair); S4: proofs of a violated instance with one of the 15 evaluations solved so that the linearisation balances (every slot where the identity is linear; shapes for V1, V2, V3 and for verifiers that would forget that evaluation); S5: every single-field splice, every crossover, every round group of two valid proofs; S6: all-identity / all-generator / z = 1 / identity-witness proofs and wrong PIs; S7: adaptive z(X) betting that z_comm is not absorbed. Every presentation must be rejected with an error under V2 and V3 (never accepted, never a panic); controls and trivial splices must be accepted; the real verdict must equal M2's.",
+      "S1: every M1-unsatisfied single-wire deviation (pairs in thorough) of each base circuit through the REAL prover forced past its unsatisfied-circuit check (remainder dropped); S2: the same through the reference prover M3 with drop_remainder; S3: assignments that satisfy every row but break one compiled copy constraint (every wire-column pair; a 1200-position copy class split next to every multiple of 1024 positions); S4: proofs of a violated instance with one of the 15 evaluations solved so that the linearisation balances (every slot where the identity is linear; shapes for V1, V2, V3 and for verifiers that would forget that evaluation); S5: every single-field splice, every crossover, every round group of two valid proofs; S6: all-identity / all-generator / z = 1 / identity-witness proofs and wrong PIs; S7: adaptive z(X) betting that z_comm is not absorbed. Every presentation must be rejected with an error under V2 and V3 (never accepted, never a panic); controls and trivial splices must be accepted; the real verdict must equal M2's.",
       "Decides the enumerated strategy menu on small circuits (n <= 64), not all polynomial-time adversaries. V1 (documented legacy profile) accepts forged SELECTOR evaluations: recorded known finding F5 (signature S4/forged-selector-eval/V1-accepted/*); any other acceptance is a violation. Trusts M1, M2, M3.",
       "DESIGN.md §5 C02")
 
